@@ -45,9 +45,14 @@ Mags == Around(P63) \cup Around(P64)
           \cup {m \o <<k>> : m \in {P63, P64, Pred(P64)}, k \in {0, 9}}          \* one more digit
           \cup {<<9,9,9,9,9,9,9,9,9,9,9,9,9,9,9,9,9,9,9>>, <<1,0,0,0,0,0,0,0,0,0,0,0,0,0,0,0,0,0,0,0>>,
                 <<9,9,9,9,9,9,9,9,9,9,9,9,9,9,9,9,9,9,9,9>>, <<1,0,0,0,0,0,0,0,0,0,0,0,0,0,0,0,0,0,0,0,0>>}
+\* a grid through the 18..21-digit integers (both leading digits x three tails): the classification must not depend on
+\* hand-picked neighbours of 2^63 / 2^64 only
+Fill(n, k) == [i \in 1..n |-> (k + i * 7) % 10]
+Grid == {<<a, b>> \o Fill(D - 2, k) : a \in 1..9, b \in {0, 4, 5, 9}, D \in 18..21, k \in {0, 5, 9}}
 ExpSpellings == {<<>>, <<101, 48>>, <<69, 48>>, <<101, 43, 48>>, <<101, 45, 48>>, <<101, 48, 48>>, <<46, 48>>, <<101, 49>>, <<69, 45, 49>>}
 Boundary ==
   {s \o Bytes(m) \o x : s \in {<<>>, <<MINUS>>}, m \in Mags, x \in ExpSpellings}
+  \cup {s \o Bytes(m) \o x : s \in {<<>>, <<MINUS>>}, m \in Grid, x \in {<<>>, <<101, 48>>, <<46, 48>>}}
   \cup {<<45, 48>>, <<48, 101, 53>>, <<45, 48, 46, 48>>, <<45, 48, 101, 45, 51>>}
 
 Out(l) ==
